@@ -6,7 +6,7 @@
    the three single-precision threshold tests of simple_cleaning are universally quantified parameters. *)
 From Coq Require Import List ZArith NArith.
 From PP Require Import Base.Lines Gen.Src_filters Probing.ProbingDefs Tools.DedupeDefs Tools.DedupeProofs
-  Tools.FiltersDefs Tools.FiltersProofs B64.Base64Defs.
+  Tools.FiltersDefs Tools.FiltersProofs B64.Base64Defs Hash.MurmurDefs.
 Import ListNotations.
 Local Open Scope Z_scope.
 
@@ -155,6 +155,18 @@ Proof.
     split; [now apply Bool.negb_true_iff in M|exact Hf].
 Qed.
 Print Assumptions C18_commoncrawl_properties.
+
+(* ---- the two set-based tools with the MurmurHash64A model (C14) as key: complete tools on bytes ---- *)
+Theorem C18_set_tools_complete :
+  forall (sub rem input : list Z),
+  let ks := fun l => Z.to_N (subtract_insert_key l) in
+  let kc := fun l => Z.to_N (commoncrawl_dedupe_key l) in
+  bind (subtract_lines ks (lines_of sub) (lines_of input)) (fun out => Ok (bytes_of out)) =
+    Ok (bytes_of (subtract_spec ks (lines_of sub) (lines_of input))) /\
+  bind (commoncrawl_dedupe kc (lines_of rem) (lines_of input)) (fun out => Ok (bytes_of out)) =
+    Ok (bytes_of (cc_spec kc (lines_of rem) (lines_of input))).
+Proof. intros. split; [rewrite subtract_lines_spec|rewrite commoncrawl_dedupe_spec]; reflexivity. Qed.
+Print Assumptions C18_set_tools_complete.
 
 (* ---- simple_cleaning never passes ill-formed UTF-8 or C0 controls other than TAB and CR ----
    per field (SimpleCleaningFilter::operator()), for every ICU classification and every option value: *)
